@@ -621,6 +621,8 @@ class CeilDivUIOp(SignlessIntegerBinaryOperation):
 class RemUIOp(SignlessIntegerBinaryOperation):
     name = "arith.remui"
 
+    traits = traits_def(NoMemoryEffect())
+
 
 @irdl_op_definition
 class RemSIOp(SignlessIntegerBinaryOperation):
@@ -1360,6 +1362,8 @@ class ExtSIOp(IRDLOperation):
 
     input = operand_def(IntegerType)
     result = result_def(IntegerType)
+
+    traits = traits_def(Pure())
 
     def __init__(self, op: SSAValue | Operation, target_type: IntegerType):
         super().__init__(operands=[op], result_types=[target_type])
